@@ -190,6 +190,29 @@ impl Rat {
         let lo_r = Big::from_u128(2 * r - 1).mul(&self.den).shl(k);
         lo_l >= lo_r
     }
+    /// |q - delta| <= tol + q * 2^-k   (delta, tol non-negative integers in q's unit)
+    pub fn within(&self, delta: u128, tol: u128, k: u32) -> bool {
+        // q >= delta - tol - q*2^-k  <=>  q*(2^k + 1) >= (delta - tol) * 2^k      (skip if delta <= tol)
+        // q <= delta + tol + q*2^-k  <=>  q*(2^k - 1) <= (delta + tol) * 2^k
+        let pk = Big::from_u128(1).shl(k);
+        let up_l = self.num.mul(&Big::from_u128((1u128 << k) - 1));
+        let up_r = Big::from_u128(delta + tol).mul(&self.den).mul(&pk);
+        if up_l > up_r {
+            return false;
+        }
+        if delta > tol {
+            let lo_l = self.num.mul(&Big::from_u128((1u128 << k) + 1));
+            let lo_r = Big::from_u128(delta - tol).mul(&self.den).mul(&pk);
+            if lo_l < lo_r {
+                return false;
+            }
+        }
+        true
+    }
+    /// 2*q as a new rational
+    pub fn doubled(&self) -> Rat {
+        Rat { num: self.num.shl(1), den: self.den.clone() }
+    }
     pub fn is_zero(&self) -> bool {
         self.num.is_zero()
     }
